@@ -1,16 +1,21 @@
 //! C18 driver: truncation and I/O faults are reported, never turned into wrong rows.
 //!
-//! `run` records three kinds of events (validated by Trace_FaultIO.tla, which is the only judge):
-//!   wsess  one writer session (format x API script) over the fault-injecting sink, for the fault-free plan
-//!          and for a fault of every kind at every sink call index: the sink call log, the API call log,
-//!          and the pure projections acc_len / full_len / acc_digest / full_prefix_digest
-//!   rref   per reader case: the rows written and the rows the fault-free reader returns
+//! `run` records four kinds of events (validated by Trace_FaultIO.tla, which is the only judge):
+//!   wsess  one writer session (format x API script, wsess.rs) over the fault-injecting sink (fault.rs), for
+//!          the fault-free plan and for a fault of every kind at every sink call index: the sink call log,
+//!          the API call log, the pure projections acc_len / full_len / acc_digest / full_prefix_digest and,
+//!          when a terminating call succeeded after a reported failure, what the format's reader returns
+//!          for the bytes the sink holds (rb, rb_rows)
+//!   rref   per reader case (rsess.rs): the rows written and the rows the fault-free reader returns
 //!   rsess  one reader session over the fault-injecting source (every call index x kind)
 //!   cut    the reader on the first n bytes of the file, for every n
-//! Every session runs in its own thread under a watchdog (outcome "hang") with panics captured ("panic").
+//! Every session runs on a session thread under a watchdog (outcome "hang"), panics are captured per call.
+//! `selftest` records sessions of deliberately defective writers / readers (selftest.rs) that TLC must
+//! reject, and of their well-behaved counterparts that it must accept.
 mod data;
 mod fault;
 mod rsess;
+mod selftest;
 mod wsess;
 
 use fault::{dev, FaultSink, Kind, Plan, Shared};
@@ -22,18 +27,58 @@ use vcore::{json, Args, Rng, Value};
 
 const WATCHDOG: Duration = Duration::from_secs(20);
 
-/// run `f` in its own thread; `None` = it did not return in time (the thread is abandoned)
-fn watchdog<T: Send + 'static>(f: impl FnOnce() -> T + Send + 'static) -> Option<T> {
-    let (tx, rx) = mpsc::channel();
+type Job = Box<dyn FnOnce() + Send + 'static>;
+
+thread_local! {
+    /// the session thread: reused from session to session, replaced after a hang
+    static WORKER: std::cell::RefCell<Option<mpsc::Sender<Job>>> = const { std::cell::RefCell::new(None) };
+}
+
+fn spawn_worker() -> mpsc::Sender<Job> {
+    let (tx, rx) = mpsc::channel::<Job>();
     std::thread::Builder::new()
         .name("session".into())
         .stack_size(8 << 20)
         .spawn(move || {
-            let r = f();
-            let _ = tx.send(r);
+            for job in rx {
+                job();
+            }
         })
         .unwrap();
-    rx.recv_timeout(WATCHDOG).ok()
+    tx
+}
+
+/// run `f` on the session thread; `None` = it did not return in time (that thread is abandoned and a
+/// fresh one serves the next session).  Panics of the code under test are caught inside `f`.
+fn watchdog<T: Send + 'static>(f: impl FnOnce() -> T + Send + 'static) -> Option<T> {
+    let (tx, rx) = mpsc::channel();
+    let job: Job = Box::new(move || {
+        let r = f();
+        let _ = tx.send(r);
+    });
+    WORKER.with(|w| {
+        let mut w = w.borrow_mut();
+        if w.is_none() {
+            *w = Some(spawn_worker());
+        }
+        if let Err(mpsc::SendError(job)) = w.as_ref().unwrap().send(job) {
+            // the worker died (a panic escaped a session): start a new one
+            *w = Some(spawn_worker());
+            w.as_ref().unwrap().send(job).ok();
+        }
+    });
+    match rx.recv_timeout(WATCHDOG) {
+        Ok(r) => Some(r),
+        Err(mpsc::RecvTimeoutError::Timeout) => {
+            WORKER.with(|w| *w.borrow_mut() = None);
+            None
+        }
+        Err(mpsc::RecvTimeoutError::Disconnected) => {
+            // the session thread unwound without an answer: the session counts as a panic of its last call
+            WORKER.with(|w| *w.borrow_mut() = None);
+            None
+        }
+    }
 }
 
 fn fnv(bytes: impl Iterator<Item = u8>) -> String {
@@ -110,36 +155,103 @@ struct Counters {
     ok_after_err: usize,
 }
 
-fn writer_events(args: &Args, inp: &wsess::Inputs, tr: &mut Shards, cnt: &mut Counters) -> Vec<(String, String, Vec<u8>)> {
-    let max_idx = args.scale(60, 400);
-    let mut files = vec![];
-    for case in wsess::cases(inp) {
-        let case = Arc::new(case);
-        // fault-free reference: the bytes, the sink call script
-        let r0 = run_writer(&case, Plan::none());
-        let (full, ref_ops, ref_lens) = {
-            let d = r0.dev.lock().unwrap();
-            (d.acc.clone(), d.ops.clone(), d.lens.clone())
-        };
-        let marker = r0.api.log.lock().unwrap().marker;
-        let mut mask = vec![false; full.len()];
-        if let Some(m) = marker {
-            let mut i = 0;
-            while i + 16 <= full.len() {
-                if full[i..i + 16] == m {
-                    mask[i..i + 16].iter_mut().for_each(|x| *x = true);
-                    i += 16;
-                } else {
-                    i += 1;
-                }
+/// fault-free run of a writer case: its output, the positions of random sync bytes in it, its sink calls
+fn reference(case: &Arc<wsess::WCase>) -> (Vec<u8>, Vec<bool>, Vec<i64>, Vec<i64>) {
+    let r0 = run_writer(case, Plan::none());
+    let (full, ref_ops, ref_lens) = {
+        let d = r0.dev.lock().unwrap();
+        (d.acc.clone(), d.ops.clone(), d.lens.clone())
+    };
+    let marker = r0.api.log.lock().unwrap().marker;
+    let mut mask = vec![false; full.len()];
+    if let Some(m) = marker {
+        let mut i = 0;
+        while i + 16 <= full.len() {
+            if full[i..i + 16] == m {
+                mask[i..i + 16].iter_mut().for_each(|x| *x = true);
+                i += 16;
+            } else {
+                i += 1;
             }
         }
+    }
+    (full, mask, ref_ops, ref_lens)
+}
+
+/// one writer session under `plan` as a trace event (+ its outcome class, + "a call returned ok after an
+/// earlier one reported the failure")
+type Readers = std::collections::HashMap<&'static str, Arc<rsess::RCase>>;
+
+/// the standard reader of each format, for reading back what a writer session left in the sink
+fn read_back_readers(inp: &wsess::Inputs) -> Readers {
+    let e = || Arc::new(Vec::new());
+    let none = rsess::Files { ipc_file: e(), ipc_stream: e(), parquet: e(), csv: e(), json: e(), avro_ocf: e() };
+    let mut m = Readers::new();
+    for c in rsess::cases(&none, &inp.bin_dict, &inp.text, &inp.avro) {
+        if matches!((c.fmt, c.variant), ("ipc_file", "direct") | ("ipc_stream", "direct") | ("parquet", "arrow_reader") | ("csv", "build") | ("json_lines", "buf8k") | ("avro_ocf", "buf8k")) {
+            m.insert(c.fmt, Arc::new(c));
+        }
+    }
+    m
+}
+
+fn wsess_event(case: &Arc<wsess::WCase>, plan: Plan, full: &[u8], mask: &[bool], ncalls: usize, readers: &Readers) -> (Value, &'static str, bool) {
+    let r = run_writer(case, plan);
+    let d = r.dev.lock().unwrap();
+    let l = r.api.log.lock().unwrap();
+    let outcome = if r.hang {
+        "hang"
+    } else if l.res.iter().any(|x| x == "panic") {
+        "panic"
+    } else if l.res.iter().any(|x| x == "err") {
+        "err"
+    } else {
+        "ok"
+    };
+    let ok_after_err = l.res.iter().position(|x| x == "err").is_some_and(|i| l.res[i..].iter().any(|x| x == "ok"));
+    let acc = &d.acc;
+    let pre = &full[..acc.len().min(full.len())];
+    // a terminating call reported success after an earlier call had reported a failure: what does the
+    // format's reader make of the bytes the sink holds?
+    let mut rb = ("none".to_string(), "none", vec![], vec![]);
+    if let (true, Some((fmt, written))) = (ok_after_err && l.res.last().is_some_and(|x| x == "ok"), &case.read_back) {
+        if let Some(rc) = readers.get(fmt) {
+            let out = run_reader(rc, Arc::new(acc.clone()), Plan::none()).out;
+            rb = (out.outcome, rc.cls, out.batches.into_iter().flatten().collect(), written.clone());
+        }
+    }
+    let ev = json!({
+        "op": "wsess", "fmt": case.fmt, "variant": case.variant, "k": plan.k, "kind": plan.kind.name(),
+        "random_sync": case.random_sync,
+        "rb": rb.0, "rb_cls": rb.1, "rb_rows": strs(&rb.2), "rb_written": strs(&rb.3),
+        "ncalls": ncalls, "fired": d.fired,
+        "sop": ints(&d.ops), "slen": ints(&d.lens), "sret": ints(&d.rets),
+        "api": strs(&l.names), "ares": strs(&l.res), "aat": ints(&l.at),
+        "acc_len": acc.len(), "full_len": full.len(),
+        "acc_digest": digest(acc, mask), "full_prefix_digest": digest(pre, mask),
+        "masked": mask.iter().filter(|x| **x).count(),
+        "outcome": outcome,
+    });
+    (ev, outcome, ok_after_err)
+}
+
+fn writer_events(args: &Args, inp: &wsess::Inputs, tr: &mut Shards, cnt: &mut Counters) -> Vec<(String, String, Vec<u8>)> {
+    let mut files = vec![];
+    let readers = read_back_readers(inp);
+    for case in wsess::cases(inp) {
+        // quick tier: the scripts that differ from a primary one only in the terminating call get fewer indices
+        let max_idx = if args.thorough() { 400 } else if case.primary { 44 } else { 20 };
+        let case = Arc::new(case);
+        let (full, mask, ref_ops, ref_lens) = reference(&case);
         files.push((case.fmt.to_string(), case.variant.to_string(), full.clone()));
         let mut plans = vec![Plan::none()];
         for k in pick(&ref_ops, max_idx) {
             let (op, len) = (ref_ops[k - 1], ref_lens[k - 1]);
             plans.push(Plan { k, kind: Kind::Error });
             plans.push(Plan { k, kind: Kind::ErrorOnce });
+            if case.whole_writes {
+                continue;
+            }
             plans.push(Plan { k, kind: Kind::Interrupted });
             if op == fault::OP_WRITE && len >= 2 {
                 plans.push(Plan { k, kind: Kind::Short });
@@ -151,35 +263,11 @@ fn writer_events(args: &Args, inp: &wsess::Inputs, tr: &mut Shards, cnt: &mut Co
         // a plan behind the last call never fires
         plans.push(Plan { k: ref_ops.len() + 1, kind: Kind::Error });
         for plan in plans {
-            let r = run_writer(&case, plan);
-            let d = r.dev.lock().unwrap();
-            let l = r.api.log.lock().unwrap();
-            let outcome = if r.hang {
-                "hang"
-            } else if l.res.iter().any(|x| x == "panic") {
-                "panic"
-            } else if l.res.iter().any(|x| x == "err") {
-                "err"
-            } else {
-                "ok"
-            };
+            let (ev, outcome, ok_after_err) = wsess_event(&case, plan, &full, &mask, ref_ops.len(), &readers);
             cnt.panics += (outcome == "panic") as usize;
             cnt.hangs += (outcome == "hang") as usize;
-            if let Some(first_err) = l.res.iter().position(|x| x == "err") {
-                cnt.ok_after_err += l.res[first_err..].iter().any(|x| x == "ok") as usize;
-            }
-            let acc = &d.acc;
-            let pre = &full[..acc.len().min(full.len())];
-            tr.emit(json!({
-                "op": "wsess", "fmt": case.fmt, "variant": case.variant, "k": plan.k, "kind": plan.kind.name(),
-                "ncalls": ref_ops.len(), "fired": d.fired,
-                "sop": ints(&d.ops), "slen": ints(&d.lens), "sret": ints(&d.rets),
-                "api": strs(&l.names), "ares": strs(&l.res), "aat": ints(&l.at),
-                "acc_len": acc.len(), "full_len": full.len(),
-                "acc_digest": digest(acc, &mask), "full_prefix_digest": digest(pre, &mask),
-                "masked": mask.iter().filter(|x| **x).count(),
-                "outcome": outcome,
-            }));
+            cnt.ok_after_err += ok_after_err as usize;
+            tr.emit(ev);
             tr.next_episode();
             cnt.wsess += 1;
         }
@@ -199,18 +287,14 @@ fn run_reader(case: &Arc<rsess::RCase>, data: Arc<Vec<u8>>, plan: Plan) -> RRes 
     RRes { dev: d, out }
 }
 
-/// truncation lengths: all of them for small files, else both ends + an odd stride
-fn cut_lengths(len: usize, all_upto: usize) -> Vec<usize> {
-    if len <= all_upto {
+/// truncation lengths: all of them for small files; else both ends of the file + an odd stride, dense for
+/// the primary reader of a format, sparse for the variants that differ only in buffering
+fn cut_lengths(len: usize, all_upto: usize, dense: bool) -> Vec<usize> {
+    if len <= all_upto && dense {
         return (0..=len).collect();
     }
-    let mut s = std::collections::BTreeSet::new();
-    for n in 0..=len {
-        if n < 64 || n + 160 > len || n % 13 == 3 {
-            s.insert(n);
-        }
-    }
-    s.into_iter().collect()
+    let (head, tail, stride) = if dense { (64, 160, 29) } else { (24, 48, 97) };
+    (0..=len).filter(|n| *n < head || n + tail > len || n % stride == 3).collect()
 }
 
 fn reader_events(args: &Args, cases: Vec<rsess::RCase>, tr: &mut Shards, cnt: &mut Counters) {
@@ -260,8 +344,7 @@ fn reader_events(args: &Args, cases: Vec<rsess::RCase>, tr: &mut Shards, cnt: &m
         }
         // truncation (once per format and reader)
         let len = case.file.len();
-        let upto = if args.thorough() || case.cuts_quick { all_upto } else { 0 };
-        for n in cut_lengths(len, upto) {
+        for n in cut_lengths(len, all_upto, args.thorough() || case.cuts_quick) {
             let r = run_reader(&case, Arc::new(case.file[..n].to_vec()), Plan::none());
             cnt.panics += (r.out.outcome == "panic") as usize;
             cnt.hangs += (r.out.outcome == "hang") as usize;
@@ -273,6 +356,82 @@ fn reader_events(args: &Args, cases: Vec<rsess::RCase>, tr: &mut Shards, cnt: &m
             cnt.cuts += 1;
         }
     }
+}
+
+/// sessions of deliberately defective writers / readers (selftest.rs): every event must be rejected
+fn selftest_events(args: &Args) {
+    let mut tr = vcore::Trace::create(&args.out, "bad-00");
+    for (case, plans) in selftest::writers() {
+        let case = Arc::new(case);
+        let (full, mask, ref_ops, _) = reference(&case);
+        for plan in plans {
+            tr.emit(wsess_event(&case, plan, &full, &mask, ref_ops.len(), &Readers::new()).0);
+        }
+    }
+    let file = Arc::new(selftest::LINES.to_vec());
+    let orig = selftest::orig();
+    for (variant, cls, read) in selftest::readers() {
+        let case = Arc::new(rsess::RCase { fmt: "selftest", variant, cls, round_trip: true, cuts_quick: true, file: file.clone(), written: orig.clone(), read });
+        if variant == "error_is_eof" {
+            for plan in [Plan { k: 2, kind: Kind::Error }, Plan { k: 3, kind: Kind::ErrorOnce }] {
+                let r = run_reader(&case, file.clone(), plan);
+                let d = r.dev.lock().unwrap();
+                tr.emit(json!({
+                    "op": "rsess", "fmt": case.fmt, "variant": case.variant, "cls": case.cls, "k": plan.k, "kind": plan.kind.name(),
+                    "ncalls": 6, "fired": d.fired,
+                    "sop": ints(&d.ops), "slen": ints(&d.lens), "sret": ints(&d.rets),
+                    "outcome": r.out.outcome, "got": nested(&r.out.batches), "orig": nested(&orig),
+                }));
+            }
+        } else {
+            for n in [11usize, 20] {
+                let r = run_reader(&case, Arc::new(file[..n].to_vec()), Plan::none());
+                tr.emit(json!({
+                    "op": "cut", "fmt": case.fmt, "variant": case.variant, "cls": case.cls, "n": n, "len": file.len(),
+                    "outcome": r.out.outcome, "got": nested(&r.out.batches), "orig": nested(&orig),
+                }));
+            }
+        }
+    }
+    let n = tr.finish();
+    // controls: the well-behaved counterparts under every plan / cut must be accepted
+    let mut tr = vcore::Trace::create(&args.out, "good-00");
+    let case = Arc::new(selftest::good_writer());
+    let (full, mask, ref_ops, _) = reference(&case);
+    for k in 0..=ref_ops.len() + 1 {
+        for kind in [Kind::Error, Kind::ErrorOnce, Kind::Short, Kind::Interrupted, Kind::Zero] {
+            tr.emit(wsess_event(&case, Plan { k, kind }, &full, &mask, ref_ops.len(), &Readers::new()).0);
+        }
+    }
+    let (variant, cls, read) = selftest::good_reader();
+    let case = Arc::new(rsess::RCase { fmt: "selftest", variant, cls, round_trip: true, cuts_quick: true, file: file.clone(), written: orig.clone(), read });
+    let ref_rets = run_reader(&case, file.clone(), Plan::none()).dev.lock().unwrap().rets.clone();
+    for k in 0..=7 {
+        for kind in [Kind::Error, Kind::ErrorOnce, Kind::Short, Kind::Interrupted] {
+            // (as in `reader_events`: a short read is planned only where two bytes can be split)
+            if kind == Kind::Short && (k == 0 || ref_rets.get(k - 1).is_none_or(|r| *r < 2)) {
+                continue;
+            }
+            let plan = Plan { k, kind };
+            let r = run_reader(&case, file.clone(), plan);
+            let d = r.dev.lock().unwrap();
+            tr.emit(json!({
+                "op": "rsess", "fmt": case.fmt, "variant": case.variant, "cls": case.cls, "k": plan.k, "kind": plan.kind.name(),
+                "ncalls": 6, "fired": d.fired,
+                "sop": ints(&d.ops), "slen": ints(&d.lens), "sret": ints(&d.rets),
+                "outcome": r.out.outcome, "got": nested(&r.out.batches), "orig": nested(&orig),
+            }));
+        }
+    }
+    for n in 0..=file.len() {
+        let r = run_reader(&case, Arc::new(file[..n].to_vec()), Plan::none());
+        tr.emit(json!({
+            "op": "cut", "fmt": case.fmt, "variant": case.variant, "cls": case.cls, "n": n, "len": file.len(),
+            "outcome": r.out.outcome, "got": nested(&r.out.batches), "orig": nested(&orig),
+        }));
+    }
+    let g = tr.finish();
+    println!("DRIVER c18-selftest events={n} controls={g}");
 }
 
 fn find<'a>(files: &'a [(String, String, Vec<u8>)], fmt: &str, variant: &str) -> Arc<Vec<u8>> {
@@ -288,6 +447,10 @@ fn main() {
             default(info);
         }
     }));
+    if args.driver == "selftest" {
+        selftest_events(&args);
+        std::process::exit(0);
+    }
     if args.driver != "run" {
         eprintln!("usage: c18 run --tier T --seed S --out DIR");
         std::process::exit(2);
@@ -295,16 +458,15 @@ fn main() {
     let mut rng = Rng::new(args.seed);
     let lens: &[usize] = if args.thorough() { &[7, 1, 9] } else { &[5, 1, 4] };
     let inp = wsess::Inputs {
-        bin: data::binary(&mut rng, lens, false),
         bin_dict: data::binary(&mut rng, lens, true),
-        wide: data::wide(&mut rng, args.scale(1400, 6000)),
+        wide: data::wide(&mut rng, args.scale(6000, 40000)),
         avro: data::avro(&mut rng, lens),
         text: data::text(&mut rng, lens),
     };
     let mut cnt = Counters { wsess: 0, rsess: 0, cuts: 0, panics: 0, hangs: 0, ok_after_err: 0 };
-    let mut wtr = Shards::create(&args.out, "fw", 14);
-    let files = writer_events(&args, &inp, &mut wtr, &mut cnt);
-    let wev = wtr.finish();
+    // one set of shards: every shard gets writer sessions, reader sessions and truncations
+    let mut tr = Shards::create(&args.out, "fio", 14);
+    let files = writer_events(&args, &inp, &mut tr, &mut cnt);
     let f = rsess::Files {
         ipc_file: find(&files, "ipc_file", "direct/finish"),
         ipc_stream: find(&files, "ipc_stream", "direct/finish"),
@@ -313,15 +475,14 @@ fn main() {
         json: find(&files, "json_lines", "direct/finish"),
         avro_ocf: find(&files, "avro_ocf", "direct/finish+into_inner"),
     };
-    let mut rtr = Shards::create(&args.out, "fr", 14);
-    reader_events(&args, rsess::cases(&f, &inp.bin_dict, &inp.text, &inp.avro), &mut rtr, &mut cnt);
-    let rev = rtr.finish();
+    reader_events(&args, rsess::cases(&f, &inp.bin_dict, &inp.text, &inp.avro), &mut tr, &mut cnt);
+    let events = tr.finish();
     println!(
         "DRIVER c18 writer_sessions={} reader_sessions={} truncations={} events={} panics={} hangs={} ok_after_err={}",
         cnt.wsess,
         cnt.rsess,
         cnt.cuts,
-        wev + rev,
+        events,
         cnt.panics,
         cnt.hangs,
         cnt.ok_after_err
